@@ -518,7 +518,6 @@ func (e *Engine) runDefers(st *State, base int, kind ExitKind, ret *ast.ReturnSt
 	e.runDefers(s2, base, kind, ret, at, out)
 }
 
-
 // exec applies the transfer function of a non-branch node.
 func (e *Engine) exec(st *State, n ast.Node, exit exitFn) []*State {
 	e.res.At[n] = append(e.res.At[n], st)
@@ -786,7 +785,9 @@ func (e *Engine) learn(st *State, key string, v Val, exprs ...ast.Expr) {
 }
 
 // Learn lets rules record a fact with dependencies (killed like engine facts).
-func (e *Engine) Learn(st *State, key string, v Val, exprs ...ast.Expr) { e.learn(st, key, v, exprs...) }
+func (e *Engine) Learn(st *State, key string, v Val, exprs ...ast.Expr) {
+	e.learn(st, key, v, exprs...)
+}
 
 func (e *Engine) collectDeps(d *factDeps, x ast.Expr) {
 	ast.Inspect(x, func(n ast.Node) bool {
